@@ -6,8 +6,10 @@
 package main
 
 import (
+	"bytes"
 	"context"
 	"encoding/json"
+	"errors"
 	"fmt"
 	"os"
 	"path/filepath"
@@ -19,6 +21,7 @@ import (
 
 	"github.com/oasisprotocol/oasis-core/go/common/crypto/hash"
 	"github.com/oasisprotocol/oasis-core/go/common/logging"
+	"github.com/oasisprotocol/oasis-core/go/storage/mkvs/checkpoint"
 	"github.com/oasisprotocol/oasis-core/go/storage/mkvs/db/api"
 	"github.com/oasisprotocol/oasis-core/go/storage/mkvs/node"
 
@@ -27,24 +30,28 @@ import (
 
 // witness identifies one (tree, parameter set) case; everything else is a function of the seed.
 type witness struct {
-	Seed       int64    `json:"seed"`
-	Tier       string   `json:"tier"`
-	Tree       int      `json:"tree"`
-	Param      int      `json:"param"`
-	Shape      string   `json:"shape"`
-	Keys       int      `json:"keys"`
-	SrcBackend string   `json:"source_backend"`
-	RootType   string   `json:"root_type"`
-	Version    uint64   `json:"version"`
-	Root       string   `json:"root_hash"`
-	ChunkSize  uint64   `json:"chunk_size"`
-	Threads    uint16   `json:"threads"`
-	Chunks     int      `json:"chunks"`
-	Step       string   `json:"step"`
-	Facts      *facts   `json:"facts,omitempty"`
-	Ops        []string `json:"operations"`
-	Model      []kv     `json:"model,omitempty"`
-	Replay     string   `json:"replay_hint"`
+	Seed       int64  `json:"seed"`
+	Tier       string `json:"tier"`
+	Tree       int    `json:"tree"`
+	Param      int    `json:"param"`
+	Shape      string `json:"shape"`
+	Keys       int    `json:"keys"`
+	SrcBackend string `json:"source_backend"`
+	RootType   string `json:"root_type"`
+	Version    uint64 `json:"version"`
+	Root       string `json:"root_hash"`
+	// MaxNodeDepth / ProofDepth are measured by walking the source tree (root = depth 0); the proof
+	// verifier rejects a proof that is entered with a depth above 128.
+	MaxNodeDepth int      `json:"max_node_depth"`
+	ProofDepth   int      `json:"max_depth_the_proof_verifier_is_entered_with"`
+	ChunkSize    uint64   `json:"chunk_size"`
+	Threads      uint16   `json:"threads"`
+	Chunks       int      `json:"chunks"`
+	Step         string   `json:"step"`
+	Facts        *facts   `json:"facts,omitempty"`
+	Ops          []string `json:"operations"`
+	Model        []kv     `json:"model,omitempty"`
+	Replay       string   `json:"replay_hint"`
 }
 
 type runner struct {
@@ -178,7 +185,10 @@ func (rn *runner) runTree(ti int, onlyParam int) {
 	if shape == "random-large" && ti%(2*len(shapes)) >= len(shapes) {
 		shape = "adv-medium"
 	}
-	m := genTree(rng, shape, rn.maxKeys)
+	// Exactly one tree of the quick tier (index 2, a nested-prefix chain of 140 keys) is deeper than
+	// the proof verifier's limit; the other quick chains are bounded well below it.
+	deepTree := ti == 2
+	m := genTree(rng, shape, rn.maxKeys, r.Pick(50, 120), deepTree)
 	want := m.sorted()
 	srcBackend := backends[(ti/len(shapes))%2]
 	if rng.IntN(4) == 0 {
@@ -244,6 +254,20 @@ func (rn *runner) runTree(ti int, onlyParam int) {
 	w.Root = root.Hash.String()
 	st.add("trees_built/"+shape, 1)
 	st.add("keys_in_trees", int64(len(m)))
+	if mn, pd, err := measureDepth(src, root); err != nil {
+		fail(&problem{"c12/harness/measure-depth/" + srcBackend, err.Error()}, w)
+		return
+	} else {
+		w.MaxNodeDepth, w.ProofDepth = mn, pd
+	}
+	r.Distinct("tree_depths", fmt.Sprint(w.MaxNodeDepth))
+	if w.ProofDepth > maxProofDepth {
+		st.add("trees_with_proof_depth_over_128", 1)
+		if rn.probeDeepTree(ctx, ti, src, root, w, want, m, st, fail) {
+			st.add("trees_skipped_after_proof_depth_rejection", 1)
+			return
+		}
+	}
 
 	// A checkpoint of a different root (foreign chunks for the corruption series).
 	var fgOther [][]byte
@@ -454,4 +478,100 @@ func mustOpen(backend, dir string) api.NodeDB {
 		panic(fmt.Sprintf("open %s db: %v", backend, err))
 	}
 	return db
+}
+
+// Signatures of the finding "honest checkpoint chunks of a tree with more than 128 node levels
+// are rejected by the proof verifier's depth limit" (one per step kind).
+const (
+	sigDepthRejected     = "c12/honest-chunk-rejected/proof-depth-over-128"
+	sigDepthRetryRefused = "c12/honest-retry-refused/proof-depth-over-128"
+)
+
+// probeDeepTree is run for a source tree whose measured proof depth exceeds the verifier's limit:
+// one checkpoint (created twice, Metadata compared) is restored sequentially into an empty DB of
+// each backend. If an honest chunk is rejected with exactly "max proof depth exceeded" the finding
+// is reported under its stable signature, as is the refusal of the immediate honest retry (the
+// restorer gave up on the checkpoint), and the rest of the tree's oracle, which cannot complete,
+// is skipped (true). Any other outcome is judged as usual; if every chunk is accepted the normal
+// oracle runs (false).
+func (rn *runner) probeDeepTree(ctx context.Context, ti int, src api.NodeDB, root node.Root, w witness, want []kv, m model, st stats, fail func(*problem, witness)) (skip bool) {
+	r := rn.r
+	w.Step = "probe-deep-tree"
+	defer func() {
+		if rec := recover(); rec != nil {
+			fail(&problem{"panic/probe-deep-tree", fmt.Sprintf("%v\n%s", rec, debug.Stack())}, w)
+			skip = true
+		}
+	}()
+	dir := filepath.Join(r.Scratch(), fmt.Sprintf("t%d-deep", ti))
+	defer os.RemoveAll(dir)
+	prng := r.Rand(12, uint64(ti), 99)
+	w.ChunkSize, w.Threads = uint64(64+prng.IntN(2000)), uint16(prng.IntN(4))
+	meta, chunks, err := checkpointOf(ctx, src, filepath.Join(dir, "cpA"), root, w.ChunkSize, w.Threads)
+	if err != nil {
+		fail(&problem{"c12/create-checkpoint-failed/" + w.SrcBackend + "/" + w.Shape, err.Error()}, w)
+		return true
+	}
+	w.Chunks = len(chunks)
+	r.Eval(1)
+	st.add("checkpoints_created", 1)
+	st.add("chunks_created", int64(len(chunks)))
+	meta2, _, err := checkpointOf(ctx, src, filepath.Join(dir, "cpB"), root, w.ChunkSize, w.Threads)
+	if err != nil || !metaEqual(meta, meta2) {
+		fail(&problem{"c12/metadata-nondeterministic", fmt.Sprintf("two CreateCheckpoint calls on a tree of depth %d differ (err %v)", w.MaxNodeDepth, err)}, w)
+		return true
+	}
+	st.add("metadata_pairs_compared", 1)
+
+	rejectedEverywhere := true
+	for _, backend := range backends {
+		r.Eval(1)
+		st.add("deep_tree_probes/"+backend, 1)
+		accepted := func() bool {
+			dst := mustOpen(backend, "")
+			defer dst.Close()
+			rs, _ := checkpoint.NewRestorer(dst)
+			if err := dst.StartMultipartInsert(root.Version); err != nil {
+				fail(&problem{"c12/restore-error/start-multipart/" + backend + "/" + errClass(err), err.Error()}, w)
+				return false
+			}
+			if err := rs.StartRestore(ctx, meta); err != nil {
+				fail(&problem{"c12/restore-error/start-restore/" + errClass(err), err.Error()}, w)
+				return false
+			}
+			w.Ops = []string{"StartMultipartInsert", "StartRestore", "RestoreChunk 0.. sequentially"}
+			for i := range chunks {
+				done, err := rs.RestoreChunk(ctx, uint64(i), bytes.NewReader(chunks[i]))
+				st.add("restorechunk_calls", 1)
+				if err == nil {
+					if done != (i == len(chunks)-1) {
+						fail(&problem{"c12/restore-done-flag-wrong/" + backend, fmt.Sprintf("done=%v after chunk %d of %d", done, i, len(chunks))}, w)
+						return false
+					}
+					continue
+				}
+				if errors.Is(err, checkpoint.ErrChunkProofVerificationFailed) && strings.Contains(err.Error(), "max proof depth exceeded") {
+					// Exactly the documented limit, and the measured depth is above it.
+					st.add("honest_chunks_rejected_for_proof_depth/"+backend, 1)
+					fail(&problem{sigDepthRejected, fmt.Sprintf("%s: RestoreChunk(%d of %d) of an honest checkpoint of a tree with %d node levels (verifier entered with depth %d > %d) failed: %v", backend, i, len(chunks), w.MaxNodeDepth+1, w.ProofDepth, maxProofDepth, err)}, w)
+					// The immediate honest retry, as a caller that treats the failure as transient would do.
+					if _, err2 := rs.RestoreChunk(ctx, uint64(i), bytes.NewReader(chunks[i])); err2 != nil {
+						st.add("honest_retries_refused_after_proof_depth_rejection/"+backend+"/"+errClass(err2), 1)
+						fail(&problem{sigDepthRetryRefused, fmt.Sprintf("%s: the honest retry of chunk %d right after the proof-depth rejection is refused (the restorer gave up on the checkpoint): %v", backend, i, err2)}, w)
+					}
+					return false
+				}
+				fail(&problem{"c12/honest-chunk-rejected/" + backend + "/" + errClass(err), fmt.Sprintf("RestoreChunk(%d) of an honest, not yet restored chunk failed: %v", i, err)}, w)
+				return false
+			}
+			return true
+		}()
+		if accepted {
+			rejectedEverywhere = false
+		}
+	}
+	_ = want
+	_ = m
+	// If every backend accepted all chunks the limit no longer applies: run the normal oracle.
+	return rejectedEverywhere
 }
